@@ -2,7 +2,7 @@
 import looplib as L
 from vlib import Failure, finish, hexs
 
-COQ_FILES = L.LOOP_COQ_FILES + ["CommandProofs.v"]
+COQ_FILES = L.LOOP_COQ_FILES + ["CommandProofs.v", "CallerProofs.v"]
 
 
 def any_specs(rng, n, rid):
